@@ -408,16 +408,29 @@ void thrift_skip(thrift_decoder_t* dec, thrift_type_t type) {
 
         case THRIFT_TYPE_LIST:
         case THRIFT_TYPE_SET: {
+            /* Containers nest like structs: bound the recursion, otherwise a
+             * few kilobytes of nested list headers exhaust the stack. */
+            if (dec->container_depth >= THRIFT_MAX_NESTING) {
+                set_error(dec, CARQUET_ERROR_THRIFT_DECODE, "Container nesting too deep");
+                break;
+            }
+            dec->container_depth++;
             thrift_type_t elem_type;
             int32_t count;
             thrift_read_list_begin(dec, &elem_type, &count);
             for (int32_t i = 0; i < count && dec->status == CARQUET_OK; i++) {
                 thrift_skip(dec, elem_type);
             }
+            dec->container_depth--;
             break;
         }
 
         case THRIFT_TYPE_MAP: {
+            if (dec->container_depth >= THRIFT_MAX_NESTING) {
+                set_error(dec, CARQUET_ERROR_THRIFT_DECODE, "Container nesting too deep");
+                break;
+            }
+            dec->container_depth++;
             thrift_type_t key_type, value_type;
             int32_t count;
             thrift_read_map_begin(dec, &key_type, &value_type, &count);
@@ -425,6 +438,7 @@ void thrift_skip(thrift_decoder_t* dec, thrift_type_t type) {
                 thrift_skip(dec, key_type);
                 thrift_skip(dec, value_type);
             }
+            dec->container_depth--;
             break;
         }
 
